@@ -43,6 +43,7 @@ package sessions
 //@   requires s != nil && topics_nodup(s)
 //@   ensures topics_nodup(s)
 //@   ensures forall x string :: topic_in(s, x) <==> (old(topic_in(s, x)) || x == string(t))
+//@   ensures base(s.topics) == old(base(s.topics)) || fresh(s.topics)
 //@   modifies s.topics, elems(s.topics)
 //@ loop (*Session).AddTopic#1
 //@   invariant -1 <= rangeindex && rangeindex < len(s.topics)
@@ -57,6 +58,7 @@ package sessions
 //@   requires s != nil && topics_nodup(s)
 //@   ensures topics_nodup(s)
 //@   ensures forall x string :: topic_in(s, x) <==> (old(topic_in(s, x)) && x != string(new))
+//@   ensures base(s.topics) == old(base(s.topics))
 //@   modifies s.topics, elems(s.topics)
 // The loop ranges over the slice as it was on entry while it shrinks s.topics; at most one element can match
 // because the set is duplicate-free, and that element is overwritten by the last one.
@@ -99,3 +101,24 @@ package sessions
 //@   ensures prefixed(mountPoint, t, out) && fresh(out) && out != nil
 //@   modifies newrows(t)
 //@ guarded Session.topics by mtx
+
+// ---- the will (C13) -----------------------------------------------------------------------------------------------------------
+// what a decoder sees in an encoded will (A-PROTOBUF)
+//@ fun will_ok(enc string) bool
+//@ fun will_topic(enc string) string
+//@ fun will_payload(enc string) string
+//@ fun will_qos(enc string) int32
+//@ fun will_retain(enc string) bool
+//@ trusted func github.com/golang/protobuf/proto.Marshal(pb proto.Message) (out []byte, err error)
+//@   ensures err == nil && typeis(pb, *packet.Publish) ==> out != nil && fresh(out) && will_ok(string(out)) && will_topic(string(out)) == string(unbox(pb, *packet.Publish).Topic)
+//@         && will_payload(string(out)) == string(unbox(pb, *packet.Publish).Payload)
+//@         && (unbox(pb, *packet.Publish).Header != nil ==> will_qos(string(out)) == unbox(pb, *packet.Publish).Header.Qos && will_retain(string(out)) == unbox(pb, *packet.Publish).Header.Retain)
+// C13: a will is registered exactly when the CONNECT packet names a will topic (whatever the payload, an empty one included),
+// with the topic, payload, QoS and retain flag of the packet
+//@ func (*Session).processConnect(connect *packet.Connect) (err error)
+//@   requires s != nil && connect != nil && s.lwt == nil
+//@   ensures err == nil && len(connect.WillTopic) == 0 ==> s.lwt == nil
+//@   ensures err == nil && len(connect.WillTopic) > 0 ==> s.lwt != nil && will_ok(string(s.lwt)) && will_topic(string(s.lwt)) == string(connect.WillTopic) && will_payload(string(s.lwt)) == string(connect.WillPayload)
+//@            && will_qos(string(s.lwt)) == connect.WillQos && will_retain(string(s.lwt)) == connect.WillRetain
+//@   ensures s.clientID == string(connect.ClientId)
+//@   modifies s.clientID, s.keepaliveInterval, s.lwt, newrows(bytes), newobjs(packet.Publish), newobjs(packet.Header)
